@@ -59,15 +59,17 @@ def key_column(draw, n):
 @st.composite
 def group_cases(draw):
     # decisive choices first (late draws are pinned to their first option for a share of Hypothesis's examples)
-    what = draw(st.sampled_from(['frame', 'frame', 'frame_axis1', 'series', 'labels', 'apply', 'frame_array']))
+    what = draw(st.sampled_from(['frame', 'frame', 'frame_axis1', 'series', 'labels', 'apply', 'frame_array', 'go_axis_apply']))
     pos, depths = draw(st.integers(0, 3)), draw(st.sampled_from([[0], [1], [0, 1]]))
+    go = draw(st.sampled_from([False, True, False]))
+    axis1_list = draw(st.booleans())
     nk = draw(st.sampled_from([1, 2, 1]))
     n = draw(st.sampled_from([4, 3, 6, 2, 1, 0, 5, 7, 8, 9]))
     keys = [draw(key_column(n)) for _ in range(nk)]
     extra = draw(st.integers(1, 3))
     payload = draw(gen.blocks(n, extra, kinds=('int64', 'float64', '<U3', 'bool', 'object'), missing=False))
     return {'what': what, 'keys': [k[0] for k in keys], 'kinds': [k[1] for k in keys], 'payload': payload, 'pos': pos,
-            'index': draw(gen.index_recipe(n, ('auto', 'int', 'str'))), 'depths': depths}
+            'index': draw(gen.index_recipe(n, ('auto', 'int', 'str', 'date', 'ih'))), 'depths': depths, 'go': go, 'axis1_list': axis1_list}
 
 
 def _partition_check(groups, n, key_of, member_positions, what):
@@ -105,6 +107,26 @@ def check_groups(case):
         t = tuple(arr_list(k)[p] for k in keys)
         return t if len(keys) > 1 else t[0]
 
+    if what == 'go_axis_apply':
+        # apply() over the rows / columns of a grow-only frame yields one result per label, exactly as for its static form
+        if n == 0:
+            raise Discard('no rows')
+        labels = ['p%d' % q for q in range(len(payload_cols))]
+        go = sf.FrameGO.from_items(zip(labels, [gen.freeze(c) for c in payload_cols]), index=gen.build_index(case['index'], for_frame=True))
+        go['grown'] = uid
+        st_ = go.to_frame()
+        for axis in (0, 1):
+            for nm in ('iter_array', 'iter_series', 'iter_tuple'):
+                kw = {'axis': axis} if nm != 'iter_tuple' else {'axis': axis, 'constructor': tuple}
+                a = lib(lambda: getattr(st_, nm)(**kw).apply(len))
+                b = lib(lambda: getattr(go, nm)(**kw).apply(len))
+                if isinstance(a, Raised):
+                    raise Discard('static form raised: %s' % a.cls)
+                if isinstance(b, Raised):
+                    raise Failure('raised:%s' % b.cls, 'FrameGO.%s(axis=%d).apply raised %r; the static frame returns %s' % (nm, axis, b.exc, short(obs.snap(a), 120)), b.where)
+                if obs.snap(a) != obs.snap(b):
+                    raise Failure('apply-labels', 'FrameGO.%s(axis=%d).apply -> %s; static frame -> %s' % (nm, axis, short(obs.snap(b), 200), short(obs.snap(a), 200)))
+        return {'nt': n >= 1, 'cls': classes}
     if what in ('frame', 'apply', 'frame_array'):
         cols = [uid] + list(payload_cols)
         labels = ['uid'] + ['p%d' % q for q in range(len(payload_cols))]
@@ -118,6 +140,12 @@ def check_groups(case):
         klabels = ['k%d' % q for q in range(len(keys))]
         key = klabels if len(keys) > 1 else klabels[0]
         row_labels = obs.labels_of(f.index)
+        go = bool(case.get('go')) and what == 'frame'
+        if go:
+            # a grow-only source: the groups are materialised, then the source and the first group grow a column; every
+            # group must keep the columns it was yielded with (labels and order kept within a group), and the source its own
+            f = f.to_frame_go()
+            classes.append('go-source')
         if what == 'apply':
             r = lib(lambda: f.iter_group(key).apply(lambda g: g['uid'].sum()))
             if isinstance(r, Raised):
@@ -145,7 +173,23 @@ def check_groups(case):
             raise Failure('raised:%s' % r.cls, 'iter_group_items(%r) raised %r' % (key, r.exc), r.where)
         groups = []
         uid_pos = labels.index('uid')
+        grown_group = None
+        if go:
+            f['zz_src'] = uid
+            if r and isinstance(r[0][1], sf.FrameGO):
+                grown_group = r[0][1]
+                grown_group['zz_g0'] = np.arange(len(grown_group.index))
+            if obs.labels_of(f.columns) != [canon(x) for x in labels + ['zz_src']]:
+                raise Failure('labels', 'grow-only source has columns %s after it and one of its groups grew a column; expected %s' % (
+                    short(obs.labels_of(f.columns)), short(labels + ['zz_src'])))
         for gk, g in r:
+            if go:
+                wantc = [canon(x) for x in labels + (['zz_g0'] if g is grown_group else [])]
+                if obs.labels_of(g.columns) != wantc or g.shape[1] != len(wantc):
+                    raise Failure('labels', 'group %r of a grow-only frame has columns %s shape %s after the source%s grew a column; expected %s' % (
+                        gk, short(obs.labels_of(g.columns)), g.shape, ' and a sibling group' if grown_group is not None and g is not grown_group else '', short(wantc)))
+                if g is grown_group:
+                    g = g[labels]
             if what == 'frame_array':
                 members = [int(x) // 1000 for x in arr_list(g[:, uid_pos])]
             else:
@@ -202,11 +246,15 @@ def check_groups(case):
         else:
             arr = np.vstack(rows)
             f = sf.Frame(gen.freeze(arr), index=('key', 'uid'), columns=['c%d' % j for j in range(m)])
-        r = lib(lambda: list(f.iter_group_items('key', axis=1)))
+        gkey = ['key'] if case.get('axis1_list') else 'key'  # (a list of one key row: the key may come back as a 1-tuple)
+        r = lib(lambda: list(f.iter_group_items(gkey, axis=1)))
         if isinstance(r, Raised):
-            raise Failure('raised:%s' % r.cls, "iter_group_items('key', axis=1) raised %r" % r.exc, r.where)
+            raise Failure('raised:%s' % r.cls, "iter_group_items(%r, axis=1) raised %r" % (gkey, r.exc), r.where)
         groups = []
+        classes.append('axis1-key:' + type(gkey).__name__)
         for gk, g in r:
+            if isinstance(gk, tuple) and len(gk) == 1 and isinstance(gkey, list):
+                gk = gk[0]
             members = [int(str(c)[1:]) for c in obs.labels_of(g.columns)]
             if obs.labels_of(g.index) != obs.labels_of(f.index):
                 raise Failure('labels', 'axis-1 group %r index %s' % (gk, short(obs.labels_of(g.index))))
@@ -231,6 +279,18 @@ def check_groups(case):
                     raise Failure('value', 'Series group %r member %r value %r' % (gk, gl[q], g.values[q]))
             groups.append((gk, members))
         _partition_check(groups, n, lambda p: arr_list(k)[p], None, 'Series.iter_group_items')
+        # apply over the groups of a Series: one result per group, labelled by its key (whatever the class of the source index)
+        r2 = lib(lambda: s.iter_group().apply(len))
+        if isinstance(r2, Raised):
+            raise Failure('raised:%s' % r2.cls, 'Series.iter_group().apply raised %r (index %s)' % (r2.exc, type(s.index).__name__), r2.where)
+        want = {}
+        for p in range(n):
+            want[_hk(arr_list(k)[p])] = want.get(_hk(arr_list(k)[p]), 0) + 1
+        got_labels = obs.labels_of(r2.index)
+        got = {_hk(l): v for l, v in zip(got_labels, arr_list(r2.values))}
+        if len(got_labels) != len(want) or got != want:
+            raise Failure('apply-value', 'Series.iter_group().apply(len) -> %s expected %s' % (short(sorted(got.items(), key=repr)), short(sorted(want.items(), key=repr))))
+        classes.append('s-index:' + case['index']['kind'])
     else:  # labels: group by index label depth
         if n == 0:
             raise Discard('empty hierarchical index')
@@ -295,10 +355,34 @@ def check_groups(case):
 
 @st.composite
 def window_cases(draw):
+    # decisive choices first
+    target = draw(st.sampled_from(['series', 'frame0', 'frame1', 'series_array', 'frame0_array']))
+    kind, other = draw(st.sampled_from(['int', 'str', 'date', 'ih'])), draw(st.sampled_from(['str', 'date', 'str', 'ih']))
     n = draw(st.sampled_from([5, 4, 6, 3, 2, 1, 0, 7, 8]))
     return {'n': n, 'size': draw(st.integers(1, 4)), 'step': draw(st.integers(0, 3)), 'sized': draw(st.booleans()),
             'label_shift': draw(st.integers(-3, 2)), 'start_shift': draw(st.integers(-2, 2)), 'inc': draw(st.sampled_from([0, 1, -1, 2, -2])),
-            'target': draw(st.sampled_from(['series', 'frame0', 'frame1', 'series_array', 'frame0_array'])), 'kind': draw(st.sampled_from(['int', 'str']))}
+            'target': target, 'kind': kind, 'other': other}
+
+
+def _window_axis_index(kind, n):
+    """Labels of the windowed axis: plain, date-typed or hierarchical."""
+    if kind == 'int':
+        return sf.Index(list(range(10, 10 + n)))
+    if kind == 'str':
+        return sf.Index(['l%d' % i for i in range(n)])
+    if kind == 'date':
+        return sf.IndexDate([np.datetime64('2020-01-01') + i for i in range(n)])
+    if n == 0:
+        return sf.Index(())
+    return sf.IndexHierarchy.from_labels([('abc'[i // 3], i) for i in range(n)])
+
+
+def _other_axis_index(kind):
+    if kind == 'date':
+        return sf.IndexDate(('2021-03-01', '2021-03-02'))
+    if kind == 'ih':
+        return sf.IndexHierarchy.from_labels((('p', 1), ('p', 2)))
+    return sf.Index(('a', 'b'))
 
 
 def ref_windows(n, size, step, sized, label_shift, start_shift, inc):
@@ -328,20 +412,22 @@ def check_windows(case):
     n = case['n']
     if case['step'] == 0 and case['inc'] == 0:
         raise Discard('step 0 without size increment')
-    labels = list(range(10, 10 + n)) if case['kind'] == 'int' else ['l%d' % i for i in range(n)]
+    ix = _window_axis_index(case['kind'], n)
+    ox = _other_axis_index(case.get('other', 'str'))
+    labels = obs.labels_of(ix)
     vals = np.arange(n) * 3 + 1
     kw = dict(size=case['size'], step=case['step'], window_sized=case['sized'], label_shift=case['label_shift'],
               start_shift=case['start_shift'], size_increment=case['inc'])
     want = ref_windows(n, case['size'], case['step'], case['sized'], case['label_shift'], case['start_shift'], case['inc'])
     t = case['target']
     if t.startswith('series'):
-        s = sf.Series(vals, index=labels)
+        s = sf.Series(vals, index=ix)
         r = lib(lambda: list(s.iter_window_array_items(**kw) if t.endswith('array') else s.iter_window_items(**kw)))
     elif t.startswith('frame0'):
-        f = sf.Frame(np.column_stack([vals, vals * 2]) if n else np.empty((0, 2), dtype=np.int64), index=labels, columns=('a', 'b'))
+        f = sf.Frame(np.column_stack([vals, vals * 2]) if n else np.empty((0, 2), dtype=np.int64), index=ix, columns=ox)
         r = lib(lambda: list(f.iter_window_array_items(**kw) if t.endswith('array') else f.iter_window_items(**kw)))
     else:
-        f = sf.Frame(np.vstack([vals, vals * 2]) if n else np.empty((2, 0), dtype=np.int64), index=('a', 'b'), columns=labels)
+        f = sf.Frame(np.vstack([vals, vals * 2]) if n else np.empty((2, 0), dtype=np.int64), index=ox, columns=ix)
         r = lib(lambda: list(f.iter_window_items(axis=1, **kw)))
     if isinstance(r, Raised):
         raise Failure('raised:%s' % r.cls, 'iter_window_items(%s) raised %r' % (kw, r.exc), r.where)
@@ -356,7 +442,7 @@ def check_windows(case):
         elif t == 'series_array':
             got, gl2 = arr_list(gw), None
         elif t == 'frame0':
-            got, gl2 = arr_list(gw['a'].values), obs.labels_of(gw.index)
+            got, gl2 = arr_list(gw.iloc[:, 0].values), obs.labels_of(gw.index)
         elif t == 'frame0_array':
             got, gl2 = arr_list(gw[:, 0]), None
         else:
@@ -385,7 +471,7 @@ def check_windows(case):
         al = obs.labels_of(ar.index)
         if al != [canon(labels[wl]) for wl, _ in want]:
             raise Failure('apply-labels', 'windows %s: apply() labels %s expected %s' % (kw, short(al), short([labels[wl] for wl, _ in want])))
-    return {'nt': len(want) >= 2, 'cls': ['w:' + t, 'sized' if case['sized'] else 'unsized', 'step:%d' % case['step'], 'inc:%d' % case['inc']]}
+    return {'nt': len(want) >= 2, 'cls': ['w:' + t, 'wlabels:' + case['kind'], 'wother:' + case.get('other', 'str'), 'sized' if case['sized'] else 'unsized', 'step:%d' % case['step'], 'inc:%d' % case['inc']]}
 
 
 def tag(case, f):
